@@ -16,6 +16,8 @@ CONFIGS = {
     "kv": dict(crate="kani-kv", features=[], cfg_miri=True, rustflags=""),
     # KR-lite: griddle on the REAL hashbrown (portable group + griddle's own R = 4 via --cfg miri)
     "kr": dict(crate="kani-kr", features=[], cfg_miri=True, rustflags=""),
+    # insertion position in the model is a solver variable (any vacant bucket) instead of the lowest one
+    "km-np": dict(crate="kani-km", features=["nondet-placement"], cfg_miri=False, rustflags=""),
     "km-serde": dict(crate="kani-km", features=["serde"], cfg_miri=False, rustflags=""),
     "km-cnt": dict(crate="kani-km", features=["counters"], cfg_miri=False, rustflags=""),
     "km-cnt-rel": dict(crate="kani-km", features=["counters"], cfg_miri=False, rustflags="-C debug-assertions=off"),
@@ -35,7 +37,7 @@ SUITES = {
                           # extend / from_iter go through reserve: no undocumented panic, contents kept
                           "cap_reserve__s8_4a", "cap_reserve__s8_8g4"]),
                   ("km-cnt", ["cnt_reserve__split"])],
-        "thorough": [("km-cnt", ["cnt_reserve__*", "cnt_try_reserve__*"]), ("km", ["cap_reserve__*", "st_*", "zst_*", "it_iter_mut__*", "it_values_mut__*", "en_raw_*", "en_vacant_insert__*"]),
+        "thorough": [("km-np", ["st_insert__u4f", "st_insert__s8_4a", "st_insert__s8_8g4", "st_insert__s4f_e", "en_vacant_insert__u4f", "en_vacant_insert__s8_4a", "en_raw_or_insert__u4f", "st_remove__s8_8g0"]), ("km-cnt", ["cnt_reserve__*", "cnt_try_reserve__*"]), ("km", ["cap_reserve__*", "st_*", "zst_*", "it_iter_mut__*", "it_values_mut__*", "en_raw_*", "en_vacant_insert__*"]),
                      ("km-rel", ["st_insert__s8_4a", "st_remove__s8_8g0", "st_raw_replace_with__s8_8g0"]),
                      ("km-r4", ["st_insert__s16_8", "st_insert__s8_8g0", "st_remove__s8_8g4"])],
     },
@@ -71,7 +73,7 @@ SUITES = {
                   ("km-rel", ["st_raw_replace_with__s8_8g0", "st_remove__s8_8g0"]),
                   ("kv", ["kv_reflect_insert_is_not_an_inverse", "kv_replace_bucket_with_restores", "kv_sizing_small"]),
                   ("kr", ["kr_split_prefix_is_split"])],
-        "thorough": [("kv", ["kv_*"]), ("kr", ["kr_*"]), ("km", ["st_*", "rt_*", "zst_*", "en_occ_*", "it_drain__*", "it_into_iter__*", "pan_raw_*"]),
+        "thorough": [("km-np", ["st_insert__u4f", "st_insert__s8_4a", "st_insert__s8_8g4", "st_insert__s4f_e", "en_vacant_insert__u4f", "en_vacant_insert__s8_4a", "en_raw_or_insert__u4f", "st_remove__s8_8g0"]), ("kv", ["kv_*"]), ("kr", ["kr_*"]), ("km", ["st_*", "rt_*", "zst_*", "en_occ_*", "it_drain__*", "it_into_iter__*", "pan_raw_*"]),
                      ("km-rel", ["st_raw_replace_with__*", "st_remove__*", "rt_retain__s8_8g0", "en_occ_replace_with__*"])],
     },
     "C07": {
@@ -109,7 +111,7 @@ SUITES = {
                           "en_vacant_insert__u4f", "en_vacant_insert__s8_4a", "en_vacant_insert__s4f_e",
                           "en_raw_insert__u4f", "en_raw_or_insert__u4f", "en_raw_and_modify__s8_8g0", "en_raw_vacant_hashed__s8_4a",
                           "en_raw_occ_misc__s8_8g4", "st_raw_replace_with__s8_8g4"])],
-        "thorough": [("km", ["en_*", "st_raw_replace_with__*"])],
+        "thorough": [("km-np", ["st_insert__u4f", "st_insert__s8_4a", "st_insert__s8_8g4", "st_insert__s4f_e", "en_vacant_insert__u4f", "en_vacant_insert__s8_4a", "en_raw_or_insert__u4f", "st_remove__s8_8g0"]), ("km", ["en_*", "st_raw_replace_with__*"])],
     },
     "C06": {
         "quick": [("km", ["dr_insert__s8_4a", "dr_insert__u4f", "dr_remove__s8_4one", "dr_remove__s8_8g4", "dr_clear_drop__s8_8g4", "dr_clear_drop__s8m0_4a",
